@@ -87,6 +87,7 @@ All(checkAgree) == comp.ctx \notin {"init", "half"} =>
                        dr == DmParse(lit)
                    IN /\ Assert(NoSilentAcceptR(sr, dr), <<"P_C03_NoSilentAccept", lit>>)
                       /\ Assert(CounterLawR(sr), <<"P_C03_Counter", lit>>)
+                      /\ Assert(MachineLawR(sr), <<"P_C03_Machine", lit>>)
                       /\ Assert(checkAgree => AgreeR(sr, dr), <<"P_C03_Agree", lit>>)
                       /\ (EmitCases => PrintT(<<"CASE", ToJson(CaseRec(lit, sr, dr))>>))
 AllWithAgree == All(TRUE)
